@@ -102,6 +102,11 @@ def gen_single(r, i, thorough):
         c["gid"] = None if c["gid"] == 0 else c["gid"]
         if c["target_kind"] == "symlink":
             c["target_kind"] = "hardlink"
+    if r.random() < .25:
+        hs = [{"file": "other", "interrupted": False}, {"file": "other", "interrupted": True}]
+        if c["exists"] and c["target_kind"] == "regular" and not c["unpriv"]:
+            hs.append({"file": "same", "interrupted": False})
+        c["history"] = [dict(r.choice(hs)) for _ in range(r.randint(1, 3))]
     return c
 
 
@@ -117,6 +122,12 @@ def gen_two(r, i, sched=None, small=False):
          "d1": d1, "d2": d2, "target_kind": r.choice(["regular"] * 4 + ["hardlink", "symlink"]),
          "sched": sched if sched is not None else [r.random() < .5 for _ in range(14)],
          "inject1": {"kind": "none"}, "inject2": {"kind": "none"}}
+    if r.random() < .5:
+        # the forking process has already replaced files itself (zero, one, several; same or another file; interrupted)
+        hs = [{"file": "other", "interrupted": False}, {"file": "other", "interrupted": True}]
+        if c["exists"] and c["target_kind"] == "regular":
+            hs += [{"file": "same", "interrupted": False}, {"file": "same", "interrupted": True}]
+        c["history"] = [dict(r.choice(hs)) for _ in range(r.randint(1, 3))]
     if sched is None and r.random() < .25:
         c[r.choice(["inject1", "inject2"])] = {"kind": "fault", "at": r.choice(CALLS), "errno": r.choice(FAULT_ERRNOS),
                                                "flavour": r.choice(["flush", "close"])}
@@ -262,6 +273,29 @@ def alias_path(c, root):
     return {"alias": os.path.join(root, "alias.py")} if c["exists"] and c.get("target_kind", "regular") != "regular" else {}
 
 
+def do_history(c, root, target):
+    """process history before the measured write: earlier replacements of the same or of another file by this
+    very process (plain calls of the real atomic_write_file), some of them interrupted at the rename"""
+    import pyflyby._file as F
+    for n, h in enumerate(c.get("history") or []):
+        path, text = (target, c["old"]) if h["file"] == "same" else (os.path.join(root, "other.py"), "other %d\n" % n)
+        if h.get("interrupted"):
+            real = os.rename
+
+            def boom(*a, **k):
+                raise OSError(errno.EIO, "interrupted")
+            os.rename = boom
+            try:
+                try:
+                    F.atomic_write_file(F.Filename(path), text)
+                except OSError:
+                    pass
+            finally:
+                os.rename = real
+        else:
+            F.atomic_write_file(F.Filename(path), text)
+
+
 def _child_writer(c, root, target, data_text, inject, report_fd, ctrl_fd, tmpkey="tmp", stale=None, entry="direct",
                   others=None):
     """Runs in a forked child; never returns."""
@@ -270,6 +304,8 @@ def _child_writer(c, root, target, data_text, inject, report_fd, ctrl_fd, tmpkey
         import pyflyby._file as F
         import runpy  # noqa: F401
         pid = os.getpid()
+        if tmpkey == "tmp":
+            do_history(c, root, target)          # single writer: the history belongs to the writing process itself
         tmp = "%s.tmp.%d" % (target, pid)
         paths = {"target": target, tmpkey: tmp, "calib": os.path.join(root, "calib.%d" % pid)}
         paths.update(others or {})
@@ -433,12 +469,51 @@ def impl_single(c):
 
 
 def impl_two(c):
+    """the two writers are forked from one process; with a history that process (a driver forked for the case)
+    has imported pyflyby._file AND has already done replacements itself before it forks them"""
+    if not c.get("history"):
+        return _impl_two_inner(c)
+    rfd, wfd = os.pipe()
+    pid = os.fork()
+    if pid == 0:
+        try:
+            os.close(rfd)
+            try:
+                res = _impl_two_inner(c, pre=lambda root, target: do_history(c, root, target))
+            except BaseException as e:
+                import traceback
+                res = {"__exc__": type(e).__name__, "msg": str(e)[:500], "tb": traceback.format_exc()[-1500:]}
+            data = json.dumps(res).encode()
+            while data:
+                n = os.write(wfd, data)
+                data = data[n:]
+        finally:
+            os._exit(0)
+    os.close(wfd)
+    buf = b""
+    while True:
+        d = os.read(rfd, 1 << 16)
+        if not d:
+            break
+        buf += d
+    os.close(rfd)
+    os.waitpid(pid, 0)
+    res = json.loads(buf)
+    if "__exc__" in res:
+        raise RuntimeError("driver failed: %s %s\n%s" % (res["__exc__"], res["msg"], res["tb"]))
+    return res
+
+
+def _impl_two_inner(c, pre=None):
     root = tempfile.mkdtemp(prefix="verif-c08-")
     old_umask = os.umask(0)
     kids = []
     try:
         import pyflyby._file  # noqa: F401  the writers are forked from one process that has imported the module
         target, by = _setup_tree(c, root)
+        if pre:
+            pre(root, target)
+            os.umask(0)
         contents = {"old": c["old"].encode(), "d1": make_data(c["d1"]).encode(), "d2": make_data(c["d2"]).encode()}
         for side, dk, ik in ((0, "d1", "inject1"), (1, "d2", "inject2")):
             rfd, wfd = os.pipe()
@@ -761,7 +836,8 @@ def oracle_single(c, im):
                 bad.append(("crash_atomic" if c["inject"]["kind"] != "fault" else "fault_atomic",
                             "after %r the original's other name alias.py no longer holds the original: %r (was %r)" % (ev, a, a0)))
                 break
-    extra = [x for x in im["listing"] if x not in ("t.py", "bystander.py", "t.py.tmp.PID", "calib.PID", "alias.py")]
+    extra = [x for x in im["listing"] if x not in ("t.py", "bystander.py", "t.py.tmp.PID", "calib.PID", "alias.py")
+             and not (c.get("history") and x in ("other.py", "other.py.tmp.PID"))]
     if extra:
         bad.append(("frame", "unexpected directory entries %r" % extra))
     for x in main:
